@@ -428,6 +428,21 @@ func (w *walker) value(v reflect.Value, path *pth, owner, fld string, ex, no *st
 			n2.WriteByte(',')
 		}
 		w.safe = sv
+		// the hidden capacity [len:cap] is reachable by reslicing and by append: it is part of
+		// the exact snapshot (not of the value) for slices of scalars and strings
+		if v.Cap() > v.Len() && scalarKind(v.Type().Elem().Kind()) {
+			full := v.Slice(0, v.Cap())
+			e2.WriteString("|hidden:")
+			for i := v.Len(); i < v.Cap(); i++ {
+				if el := full.Index(i); el.Kind() == reflect.String {
+					e2.WriteString(strconv.Quote(el.String()))
+				} else {
+					e2.WriteString(scalar(el))
+				}
+				e2.WriteByte(',')
+			}
+			w.addAppendCell(v, path, name, me)
+		}
 		w.parts[me].Exact = e2.String()
 		w.parts[me].Norm = n2.String()
 	case reflect.Ptr:
@@ -529,6 +544,54 @@ func (w *walker) value(v reflect.Value, path *pth, owner, fld string, ex, no *st
 		ex.WriteString(v.Kind().String())
 		no.WriteString(v.Kind().String())
 	}
+}
+
+func scalarKind(k reflect.Kind) bool {
+	switch k {
+	case reflect.Bool, reflect.Int, reflect.Int8, reflect.Int16, reflect.Int32, reflect.Int64,
+		reflect.Uint, reflect.Uint8, reflect.Uint16, reflect.Uint32, reflect.Uint64, reflect.Uintptr,
+		reflect.Float32, reflect.Float64, reflect.String:
+		return true
+	}
+	return false
+}
+
+// addAppendCell: an append within the capacity of a slice -- writes the element after the
+// last one and lengthens the header.
+func (w *walker) addAppendCell(v reflect.Value, pp *pth, name string, part int) {
+	if !w.doCells || !v.CanAddr() {
+		return
+	}
+	v = settable(v)
+	if !v.CanSet() {
+		return
+	}
+	w.cells = append(w.cells, Cell{Path: pp.String() + "[append]", Name: name, Part: part, Ref: true, Tag: w.tag, Kind: reflect.Slice, V: v, Mutate: func() func() {
+		old := reflect.New(v.Type()).Elem()
+		old.Set(v)
+		n := v.Len()
+		nv := v.Slice(0, n+1)
+		el := nv.Index(n)
+		oldEl := reflect.New(el.Type()).Elem()
+		oldEl.Set(el)
+		switch el.Kind() {
+		case reflect.Bool:
+			el.SetBool(!el.Bool())
+		case reflect.String:
+			el.SetString(el.String() + "~")
+		case reflect.Float32, reflect.Float64:
+			el.SetFloat(el.Float() + 1)
+		case reflect.Int, reflect.Int8, reflect.Int16, reflect.Int32, reflect.Int64:
+			el.SetInt(el.Int() ^ 1)
+		default:
+			el.SetUint(el.Uint() ^ 1)
+		}
+		v.Set(nv)
+		return func() {
+			el.Set(oldEl)
+			v.Set(old)
+		}
+	}})
 }
 
 func scalar(v reflect.Value) string {
